@@ -11,7 +11,17 @@ from .. import gast, gen, diff, work, observe
 ID = 'C02'
 
 KINDS = ['left', 'right', 'infix', 'prefix', 'postfix']
-POOL = ['+', '-', '++', '+-', '!', 'not', '-+']
+# a spelling with dots is an operator made of several literals, written as a sequence: '+.-' is ["+", "-"]
+POOL = ['+', '-', '++', '+-', '!', 'not', '-+', '+.-', 'not.!', '-.-']
+
+
+def op_parts(s):
+    return s.split('.') if '.' in s else [s]
+
+
+def op_expr(s):
+    parts = op_parts(s)
+    return ('str', s) if len(parts) == 1 else ('seq', [('str', x) for x in parts])
 
 
 def plan(tier, seed):
@@ -68,7 +78,7 @@ def build_grammar(rng, rows, operand_kind, paren, ignore, ternary):
     if ternary:
         trows.append(('mixfix', [('ref', 'Tern')]))
     for kind, ops in rows:
-        trows.append((kind, [('str', s) for s in ops]))
+        trows.append((kind, [op_expr(s) for s in ops]))
     # shuffle position of the mixfix rows sometimes (precedence index only matters relatively)
     if trows and rng.random() < 0.3:
         mix = [r for r in trows if r[0] == 'mixfix']
@@ -94,8 +104,9 @@ def token_alphabet(rows, paren, ternary):
     al = ['1', '2']
     for _, ops in rows:
         for s in ops:
-            if s not in al:
-                al.append(s)
+            for part in op_parts(s):
+                if part not in al:
+                    al.append(part)
     if paren:
         al += ['(', ')']
     if ternary:
@@ -125,14 +136,14 @@ def well_formed_sequences(rng, rows, paren, n):
         nops = rng.randint(1, 4)
         for i in range(nops):
             for _ in range(rng.choice([0, 0, 1, 2]) if pre else 0):
-                toks.append(rng.choice(pre))
+                toks.extend(op_parts(rng.choice(pre)))
             toks.append(rng.choice('123'))
             for _ in range(rng.choice([0, 0, 1, 2]) if post else 0):
-                toks.append(rng.choice(post))
+                toks.extend(op_parts(rng.choice(post)))
             if i + 1 < nops:
                 if not inf:
                     break
-                toks.append(rng.choice(inf))
+                toks.extend(op_parts(rng.choice(inf)))
         out.append(tuple(toks))
     return out
 
@@ -146,6 +157,11 @@ def reread(v, text, p, skip_spaces):
         name = type(v).__name__
         for f in type(v)._fields:
             p = reread(getattr(v, f), text, p, skip_spaces)
+        return p
+    if isinstance(v, list):
+        # an operator made of several literals
+        for x in v:
+            p = reread(x, text, p, skip_spaces)
         return p
     if isinstance(v, str):
         if not text.startswith(v, p):
@@ -168,7 +184,7 @@ def count_ops(n, rows_seen=None):
             if x[1] in ('Infix', 'Prefix', 'Postfix'):
                 for k, val in x[2]:
                     if k == 'operator':
-                        ops.append(val)
+                        ops.append(tuple(val) if isinstance(val, list) else val)
                     else:
                         stack.append(val)
             else:
@@ -195,7 +211,9 @@ def run_table(rec, rng, rows, operand_kind, paren, ignore, ternary, quick):
     rereadable = paren != 'discard'
     desc = b.descs[-1]
     feats = []
-    spell = [s for _, ops in rows for s in ops]
+    spell = [s.replace('.', '') for _, ops in rows for s in ops]
+    if any('.' in s for _, ops in rows for s in ops):
+        feats.append('multi-literal-operator')
     if len(set(spell)) < len(spell):
         feats.append('shared-spelling')
     if any(a != c and c.startswith(a) for a in spell for c in spell):
@@ -260,6 +278,11 @@ def fixed_tables():
         [('postfix', ['+']), ('left', ['+'])],
         [('prefix', ['+']), ('postfix', ['+']), ('left', ['+'])],
         [('infix', ['+']), ('infix', ['-'])],
+        # operators made of several literals next to operators that are one of their parts
+        [('left', ['+.-', '+']), ('left', ['-'])],
+        [('infix', ['not.!', 'not']), ('prefix', ['!'])],
+        [('postfix', ['-.-', '-']), ('left', ['+'])],
+        [('prefix', ['+.-', '+']), ('left', ['-'])],
         [('prefix', ['!']), ('right', ['+-', '+']), ('postfix', ['!']), ('left', ['-', '+'])],
         [('postfix', ['!']), ('prefix', ['not']), ('infix', ['-+', '-']), ('left', ['+'])],
     ]
